@@ -1,4 +1,5 @@
 import RedisVerif.Lemmas.OuterUnique
+import RedisVerif.Lemmas.ReachRestart
 
 /-!
 # C07 over the values a cluster can produce — the hypotheses of `rv_merge_comm` /
@@ -41,8 +42,26 @@ inductive Reach (c : Cluster) (k : Nat) : RV → Prop
 def GCar (c : Cluster) (k : Nat) (v : RV) : Prop :=
   v.WF ∧ (∀ p ∈ v.crdt.slots, InCluster c (k, p.1, p.2)) ∧ SentPair c k (v.ts, v.crdt.kind)
 
-theorem gcar_of_reach {c : Cluster} (hr : RInv c) (ho : OInv c) {k : Nat} {v : RV}
+/-- the part of the cluster invariants the tie argument needs (common to executions without
+    crashes — `RInv` + `OInv` — and with crashes — `XInv`) -/
+structure TieInv (c : Cluster) : Prop where
+  wf : ∀ s ∈ c.nodes, s.NodeWF ∧ s.Inv
+  sent_wf : ∀ m ∈ c.sent, m.val.WF ∧ m.val.Dominated
+  uniq : ∀ a b, InCluster c a → InCluster c b → a.1 = b.1 → a.2.1 = b.2.1 →
+    a.2.2.ts = b.2.2.ts → a.2.2 = b.2.2
+  stored : ∀ (i : Nat) (s : Shard), c.nodes[i]? = some s → ∀ k v, NMap.get s.keys k = some v →
+    SentPair c k (v.ts, v.crdt.kind)
+  func : ∀ k p q, SentPair c k p → SentPair c k q → p.1 = q.1 → p.2 = q.2
+
+theorem TieInv.of_run {c : Cluster} (hr : RInv c) (ho : OInv c) : TieInv c :=
+  ⟨hr.wf, hr.sent_wf, hr.uniq, ho.stored, ho.func⟩
+
+theorem TieInv.of_restarts {c : Cluster} (h : XInv c) : TieInv c :=
+  ⟨h.wf, h.sent_wf, h.uniq, h.stored, h.func⟩
+
+theorem gcar_of_reach' {c : Cluster} (hr : TieInv c) {k : Nat} {v : RV}
     (h : Reach c k v) : GCar c k v := by
+  have ho := hr
   induction h with
   | stored i s v hs hg =>
     have hsmem : s ∈ c.nodes := List.mem_of_getElem? hs
@@ -70,8 +89,12 @@ theorem tieOk_of_kind_ne {a b : Crdt} {sa sb : Stamp} (hk : a.kind ≠ b.kind) (
     tieOk a b sa sb = true := by
   cases a <;> cases b <;> simp [tieOk, Crdt.kind] at * <;> exact hs
 
-theorem tie_of_gcar {c : Cluster} (hr : RInv c) (ho : OInv c) {k : Nat} {a b : RV}
+theorem gcar_of_reach {c : Cluster} (hr : RInv c) (ho : OInv c) {k : Nat} {v : RV}
+    (h : Reach c k v) : GCar c k v := gcar_of_reach' (TieInv.of_run hr ho) h
+
+theorem tie_of_gcar' {c : Cluster} (hr : TieInv c) {k : Nat} {a b : RV}
     (ha : GCar c k a) (hb : GCar c k b) : TieConsistent a b := by
+  have ho := hr
   unfold TieConsistent
   by_cases hk : a.crdt.kind = b.crdt.kind
   · have hsa := ha.2.1
@@ -104,6 +127,10 @@ theorem tie_of_gcar {c : Cluster} (hr : RInv c) (ho : OInv c) {k : Nat} {a b : R
   · apply tieOk_of_kind_ne hk
     intro hts
     exact hk (ho.func k (a.ts, a.crdt.kind) (b.ts, b.crdt.kind) ha.2.2 hb.2.2 hts)
+
+theorem tie_of_gcar {c : Cluster} (hr : RInv c) (ho : OInv c) {k : Nat} {a b : RV}
+    (ha : GCar c k a) (hb : GCar c k b) : TieConsistent a b :=
+  tie_of_gcar' (TieInv.of_run hr ho) ha hb
 
 /-! ## the theorems over executions -/
 
@@ -179,6 +206,89 @@ theorem reachable_obs_laws (n : Nat) (causal : Bool) (evs : List Ev)
   exact ⟨by rw [reachable_merge_idem n causal evs hv k a ha],
     by rw [reachable_merge_comm n causal evs hv k a b ha hb],
     by rw [reachable_merge_assoc n causal evs hv k K hK a b c ha hb hc]⟩
+
+/-! ## executions with crashes
+
+A node may crash at any point and come back EMPTY (`Cluster.restart`: Lamport clock 0); what it
+gets back — its own old deltas from WAL / segments through `apply_recovered_state(None, ..)`, from
+peers, from anti-entropy — are ordinary deliveries.  The hypothesis `RecoversFirst` (decidable on
+the history) is C08's limitation made explicit: a node does not write between a crash and having
+re-absorbed every delta it issued before (recovery precedes serving; C09 / C11 / C12 supply it for
+acknowledged-durable writes).  `restart_early_write_breaks_tie`: without it a stamp is re-used. -/
+
+/-- the cluster after a history with crashes -/
+abbrev execR (n : Nat) (causal : Bool) (evs : List REv) : Cluster := (init n causal).runR evs
+
+theorem execR_inv (n : Nat) (causal : Bool) (evs : List REv)
+    (hv : RecoversFirst (init n causal) evs) : TieInv (execR n causal evs) :=
+  TieInv.of_restarts (XInv_runR _ evs (XInv_init n causal) hv)
+
+/-- **`TieConsistent` is an invariant of everything a cluster can produce, crashes included.** -/
+theorem reachableR_tie_consistent (n : Nat) (causal : Bool) (evs : List REv)
+    (hv : RecoversFirst (init n causal) evs) (k : Nat) (a b : RV)
+    (ha : Reach (execR n causal evs) k a) (hb : Reach (execR n causal evs) k b) :
+    TieConsistent a b :=
+  have h := execR_inv n causal evs hv
+  tie_of_gcar' h (gcar_of_reach' h ha) (gcar_of_reach' h hb)
+
+theorem reachableR_wf (n : Nat) (causal : Bool) (evs : List REv)
+    (hv : RecoversFirst (init n causal) evs) (k : Nat) (a : RV)
+    (ha : Reach (execR n causal evs) k a) : a.WF :=
+  (gcar_of_reach' (execR_inv n causal evs hv) ha).1
+
+/-- **C07 (commutativity) over reachable values, crashes included — no tie hypothesis.** -/
+theorem reachableR_merge_comm (n : Nat) (causal : Bool) (evs : List REv)
+    (hv : RecoversFirst (init n causal) evs) (k : Nat) (a b : RV)
+    (ha : Reach (execR n causal evs) k a) (hb : Reach (execR n causal evs) k b) :
+    RV.merge a b = RV.merge b a :=
+  rv_merge_comm a b (reachableR_wf n causal evs hv k a ha) (reachableR_wf n causal evs hv k b hb)
+    (reachableR_tie_consistent n causal evs hv k a b ha hb)
+
+theorem reachR_kind {c : Cluster} (h : TieInv c) {k K : Nat} (hK : OneKind c k K) {v : RV}
+    (hr : Reach c k v) : v.crdt.kind = K := by
+  obtain ⟨m, hm, hk, hp⟩ := (gcar_of_reach' h hr).2.2
+  have := hK m hm hk
+  have h2 : m.val.crdt.kind = v.crdt.kind := congrArg Prod.snd hp
+  rw [← h2]; exact this
+
+/-- **C07 (associativity) over reachable values of a one-type key, crashes included.** -/
+theorem reachableR_merge_assoc (n : Nat) (causal : Bool) (evs : List REv)
+    (hv : RecoversFirst (init n causal) evs) (k K : Nat) (hK : OneKind (execR n causal evs) k K)
+    (a b c : RV) (ha : Reach (execR n causal evs) k a) (hb : Reach (execR n causal evs) k b)
+    (hc : Reach (execR n causal evs) k c) :
+    RV.merge a (RV.merge b c) = RV.merge (RV.merge a b) c := by
+  have h := execR_inv n causal evs hv
+  have ka := reachR_kind h hK ha
+  have kb := reachR_kind h hK hb
+  have kc := reachR_kind h hK hc
+  exact rv_merge_assoc_partial a b c (reachableR_wf n causal evs hv k a ha)
+    (reachableR_wf n causal evs hv k b hb) (reachableR_wf n causal evs hv k c hc)
+    ⟨by rw [ka, kb], by rw [kb, kc]⟩
+
+/-- r1 writes k three times and ships; crashes; gets its three deltas back; writes again -/
+def recoverThenWrite : List REv :=
+  [ .ev (.loc 0 (.write 107 [1] none)), .ev (.loc 0 (.write 107 [2] none)),
+    .ev (.loc 0 (.hwrite 108 [(5, [3])])), .ev (.deliver 1 0), .ev (.deliver 1 2),
+    .restart 0,
+    .ev (.deliver 0 2), .ev (.deliver 0 0), .ev (.deliver 0 1),
+    .ev (.loc 0 (.write 107 [4] none)), .ev (.loc 0 (.hdelete 108 [5])),
+    .restart 1, .ev (.deliver 1 3) ]
+
+/-- r1 writes k, crashes, and writes again BEFORE it has its own delta back -/
+def earlyWrite : List REv :=
+  [ .ev (.loc 0 (.write 107 [1] none)), .ev (.deliver 1 0), .restart 0,
+    .ev (.loc 0 (.write 107 [9] none)) ]
+
+/-- non-vacuity of `RecoversFirst`, and its necessity: the early write re-uses stamp (1, r1) for
+    another value; the two deltas are tie-inconsistent and merge order-dependently -/
+theorem restart_early_write_breaks_tie :
+    RecoversFirst (init 2 false) recoverThenWrite ∧
+    (execR 2 false recoverThenWrite).sent.map (·.val.ts) = [⟨1, 1⟩, ⟨2, 1⟩, ⟨3, 1⟩, ⟨7, 1⟩, ⟨8, 1⟩] ∧
+    ¬ RecoversFirst (init 2 false) earlyWrite ∧
+    (∃ a b, (execR 2 false earlyWrite).sent.map (·.val) = [a, b] ∧ a.ts = b.ts ∧
+      ¬ TieConsistent a b ∧ obs (RV.merge a b) ≠ obs (RV.merge b a)) := by
+  refine ⟨by decide, by decide, by decide, _, _, rfl, ?_⟩
+  decide
 
 /-! ## what the hypotheses protect -/
 
